@@ -343,6 +343,15 @@ var _ uuid.UUID
 //@ at call rand.Intn
 //@ requires [C04 apply-is-deterministic] false
 //@ end
+// content of one update inside a batch (what is handed to Insert for the item): same id and vector, the level the removed
+// vertex had, every key of the old metadata still present, the item's own map when it carries one; an item WITHOUT metadata
+// keeps exactly the old keys and values (in particular nothing of another item of the batch: the map is made for this item)
+//@ at call Hnsw).Insert
+//@ requires [C02 C04 batch-update-same-item] $arg1 == id && $arg2 == item.Value && $arg4 == vertex.level
+//@ requires [C02 batch-update-keeps-old-keys] forall k string :: has(vertex.metadata, k) ==> has($arg3, k)
+//@ requires [C02 batch-update-own-map] item.Metadata != nil ==> $arg3 == item.Metadata
+//@ requires [C02 C01 batch-update-without-metadata-keeps-exactly-the-old] item.Metadata == nil ==> forall k string :: has($arg3, k) ==> has(vertex.metadata, k) && $arg3[k] == vertex.metadata[k]
+//@ end
 //@ requires [wf] pwf(this)
 //@ requires [wellformed] wfItems(items)
 //@ ensures [notify-once] notified == 1 && istype(outcome, partitionBatchResult)
@@ -364,7 +373,12 @@ var _ uuid.UUID
 //@ invariant [errors-in-batch] forall j uuid.UUID :: has(errors, j) ==> inBatch(items, j, rangeindex + 1)
 //@ invariant [present-ids-ok] forall j uuid.UUID :: has(errors, j) ==> !old(live(pix(this), j))
 //@ loop 2
-//@ invariant [target] metadata != nil
+//@ invariant [target] metadata != nil && (item.Metadata == nil ==> metadata != $map) && (item.Metadata != nil ==> metadata == item.Metadata)
+//@ invariant [oldmeta] vertex != nil && $map == vertex.metadata
+//@ invariant [ranged-map-keeps-its-keys] forall k string :: has($map, k) ==> $start[k]
+//@ invariant [C02 visited-kept] forall k string :: $visited[k] ==> has(metadata, k)
+//@ invariant [C02 without-metadata-exactly-the-old] item.Metadata == nil ==> forall k string :: has(metadata, k) ==> $visited[k] && has($map, k) && metadata[k] == $map[k]
+//@ invariant [visited-sub] forall k string :: $visited[k] ==> has($map, k)
 //@ invariant [state] pwf(this) && notified == 0 && errors != nil && fresh(errors) && !live(pix(this), id)
 //@ invariant [items-fixed] wfItems(items) && forall i int :: 0 <= i && i < len(items) ==> items[i] == old(items[i]) && items[i].Id == old(items[i].Id)
 
